@@ -145,7 +145,10 @@ class _PokTranslator(_util.OverrideableDataDesc):
         sig = self.__signature__
         return self.func, ast, sig
 
-    def __call__(self, *args, **kwargs):
+    def __call__(_sigtools_self, *args, **kwargs):
+        # not named ``self``: the wrapped function may have a parameter
+        # of that name, which has to remain passable by keyword
+        self = _sigtools_self
         intersect = self.posoarg_names.intersection(kwargs)
         if intersect:
             raise TypeError(
